@@ -33,7 +33,7 @@ MAXF_EXTRA = {"quick": 2, "thorough": 4}
 # reading switch (see meta()["assumptions"]): a field inherited from an UNSLOTTED base must not get a slot of its own
 STRICT_INHERITED_SLOTS = True
 
-BASES = ("none", "slotted", "slotted_nw", "slotted_dict", "unslotted", "chain_sp", "chain_ps")
+BASES = ("none", "slotted", "slotted_nw", "slotted_dict", "unslotted", "ordinary", "chain_sp", "chain_ps")
 SIMPLE_BASES = ("slotted", "slotted_nw", "slotted_dict", "unslotted")  # one level; these may also have base_x re-declared
 # base kind -> the classes above C, root first: (class name, parent, slotted decorator | None, field line, init parameter)
 BASE_CHAIN = {
@@ -41,6 +41,8 @@ BASE_CHAIN = {
     "slotted_nw": [("Base", None, "@classes.slotted(weakref=False)", "base_x: int = 0", "base_x")],
     "slotted_dict": [("Base", None, "@classes.slotted(dict=True, weakref=False)", "base_x: int = 0", "base_x")],
     "unslotted": [("Base", None, None, "base_x: int = 0", "base_x")],
+    # an ORDINARY class (not a dataclass): it provides __dict__ and __weakref__ and no field
+    "ordinary": [("Base", None, "#ordinary", "pass", None)],
     # three levels, each adding one field: slotted -> plain -> C   and   plain -> slotted -> C
     "chain_sp": [("Root", None, "@classes.slotted(weakref=False)", "root_x: int = 7", "root_x"), ("Base", "Root", None, "base_x: int = 0", "base_x")],
     "chain_ps": [("Root", None, None, "root_x: int = 7", "root_x"), ("Base", "Root", "@classes.slotted", "base_x: int = 0", "base_x")],
@@ -51,7 +53,7 @@ HOOKS = ("none", "both", "set", "get")  # user pickling hooks: none / __getstate
 
 
 def has_slotted_ancestor(sp):
-    return any(c[2] for c in BASE_CHAIN.get(sp["base"], ()))
+    return any(c[2] and c[2].startswith("@") for c in BASE_CHAIN.get(sp["base"], ()))
 
 
 def norm(sp):
@@ -171,6 +173,9 @@ def source(sp, slot_child, cname="C", bare=False):
     if sp["base"] != "none":
         L.append('STAGE = "base"')
         for bname, parent, deco, fline, _ in BASE_CHAIN[sp["base"]]:
+            if deco == "#ordinary":
+                L += [f"class {bname}{'(' + parent + ')' if parent else ''}:", "    " + fline]
+                continue
             if deco:
                 L.append(deco)
             L += [f"@dataclasses.dataclass(frozen={fr})", f"class {bname}{'(' + parent + ')' if parent else ''}:", "    " + fline]
@@ -237,7 +242,7 @@ def source(sp, slot_child, cname="C", bare=False):
 
 def info_of(sp, cname="C"):
     own = [fname(i) for i in range(len(sp["fields"]))]  # declared in the body AND not a field of any base
-    inh = [c[4] for c in BASE_CHAIN.get(sp["base"], ())]
+    inh = [c[4] for c in BASE_CHAIN.get(sp["base"], ()) if c[4] is not None]
     params = [(n, "d") for n in inh] + list(zip(own, sp["fields"]))
     dflt = {fname(i): default_of(i) for i, k in enumerate(sp["fields"]) if k == "d"}
     for n in inh:
